@@ -1,6 +1,8 @@
 #include "gen.h"
 #include <dirent.h>
 #include <set>
+#include <zlib.h>
+#include <lzma.h>
 
 // ------------------------------------------------------------------------------------------------
 // serialisation and the reference model
@@ -538,4 +540,51 @@ void mutate_stream(Rng &rng, Bytes &s, int n_mut) {
         }
         if (s.size() > (1u << 19)) s.resize(1u << 19);
     }
+}
+
+
+// ------------------------------------------------------------------------------------------------
+// encoders (actors' side)
+
+Bytes z_encode(const Bytes &in, int window_bits, int level, int gz_header_fields) {
+    z_stream zs; memset(&zs, 0, sizeof zs);
+    if (deflateInit2(&zs, level, Z_DEFLATED, window_bits, 8, Z_DEFAULT_STRATEGY) != Z_OK) return Bytes();
+    gz_header gh; memset(&gh, 0, sizeof gh);
+    static unsigned char extra[] = {'A', 'p', 3, 0, 1, 2, 3}, name[] = "file.txt", comment[] = "simulated";
+    if (window_bits > 15 + 15 && gz_header_fields) {
+        if (gz_header_fields & 1) gh.name = name;
+        if (gz_header_fields & 2) gh.comment = comment;
+        if (gz_header_fields & 4) gh.hcrc = 1;
+        if (gz_header_fields & 8) { gh.extra = extra; gh.extra_len = sizeof extra; }
+        gh.os = 3;
+        deflateSetHeader(&zs, &gh);
+    }
+    Bytes out; unsigned char buf[16384];
+    zs.next_in = (Bytef *) in.data(); zs.avail_in = (uInt) in.size();
+    int rc;
+    do {
+        zs.next_out = buf; zs.avail_out = sizeof buf;
+        rc = deflate(&zs, Z_FINISH);
+        out.append((const char *) buf, sizeof buf - zs.avail_out);
+    } while (rc == Z_OK || rc == Z_BUF_ERROR);
+    deflateEnd(&zs);
+    return out;
+}
+
+Bytes lzma_alone_encode(const Bytes &in, uint32_t dict_size) {
+    lzma_options_lzma opt;
+    if (lzma_lzma_preset(&opt, 1)) return Bytes();
+    opt.dict_size = dict_size;
+    lzma_stream st = LZMA_STREAM_INIT;
+    if (lzma_alone_encoder(&st, &opt) != LZMA_OK) return Bytes();
+    Bytes out; unsigned char buf[16384];
+    st.next_in = (const uint8_t *) in.data(); st.avail_in = in.size();
+    lzma_ret rc;
+    do {
+        st.next_out = buf; st.avail_out = sizeof buf;
+        rc = lzma_code(&st, LZMA_FINISH);
+        out.append((const char *) buf, sizeof buf - st.avail_out);
+    } while (rc == LZMA_OK);
+    lzma_end(&st);
+    return out;
 }
